@@ -37,6 +37,9 @@ Record case := mkCase {
   n_threads : nat;
   ops : list opr;              (* per thread in program order (threads interleaved arbitrarily in the list) *)
   wall_ms : N;                 (* wall time of the concurrent phase *)
+  sim_ticks : N;               (* heartbeat ticks simulated through the verification hook (deterministic sessions: the
+                                  hook makes a scanner's own deadline pass at a chosen poll by doing what the
+                                  heartbeat thread does); 0 in ordinary sessions *)
   child_ok : bool;             (* the child process exited normally and reported every operation *)
   seed : N
 }.
@@ -44,7 +47,12 @@ Record case := mkCase {
 Definition mixf (a d : N) : N := (a * 31 + d) mod 1000003.
 
 (* heartbeat transitions the session can have seen: two per period, one period of slack *)
-Definition hearts_bound (k : case) : N := 2 * (wall_ms k / (1000 * heartbeat_period_secs) + 1).
+Definition ticks_bound (k : case) : N := wall_ms k / (1000 * heartbeat_period_secs) + 1 + sim_ticks k.
+Definition hearts_bound (k : case) : N := 2 * ticks_bound k.
+
+(* the model is instantiated with what the generated table of writes says
+   about scanner-side writes to the engine-wide clock *)
+Definition bumpf : bool := negb clock_single_writer.
 
 Definition std_body (j : N) : list bop := [BPollE; BWork j; BPollC; BWork (j + 1); BPollE].
 
@@ -72,7 +80,7 @@ Fixpoint picks (s : N) (n : nat) : list nat :=
 
 Definition model_run (k : case) : sys :=
   let T := N.to_nat (hearts_bound k) in
-  run_schedule mixf (picks (seed k) (8 * length (ops k) + T + 8)) T (init (progs_of k)).
+  run_schedule mixf bumpf (picks (seed k) (8 * length (ops k) + T + 8)) T (init (progs_of k)).
 
 Fixpoint forallb2 {A B} (f : A -> B -> bool) (l : list A) (l' : list B) : bool :=
   match l, l' with
@@ -99,18 +107,26 @@ Definition class_allowed (k : case) (o : opr) : bool :=
   | KScan, CTimeout =>
       let secs := timeout_secs (o_timeout o) in
       N.leb secs (hearts_bound k)
-      && N.leb ((secs - 1) * 1000 * heartbeat_period_secs) (o_ms o + 2)
+      && (N.leb ((secs - 1) * 1000 * heartbeat_period_secs) (o_ms o + 2) || negb (N.eqb (sim_ticks k) 0))
   | _, _ => true
   end.
 
 Definition check_case (k : case) : bool :=
   model_ok k && forallb (class_allowed k) (ops k).
 
-Definition spec_op (o : opr) : bool :=
+(* S: a completed scan equals the sequential oracle; a Timeout is acceptable
+   only for a scanner that has a timeout of its own, and only if that many
+   heartbeat periods can have elapsed in the session (real seconds plus
+   simulated ticks): "a timeout set on one scanner never interrupts another" *)
+Definition spec_op (k : case) (o : opr) : bool :=
   match o_class o with
   | CDone => o_equal o
-  | CTimeout => match o_kind o, o_timeout o with KScan, Some _ => true | _, _ => false end
+  | CTimeout =>
+      match o_kind o, o_timeout o with
+      | KScan, Some _ => N.leb (timeout_secs (o_timeout o)) (ticks_bound k)
+      | _, _ => false
+      end
   | CError => false
   end.
 
-Definition spec_case (k : case) : bool := child_ok k && forallb spec_op (ops k).
+Definition spec_case (k : case) : bool := child_ok k && forallb (spec_op k) (ops k).
